@@ -428,6 +428,7 @@ func (s *State) contractCall(call *ssa.Call, sp *FuncSpec, fn *ssa.Function, sig
 			if strings.Contains(err.Error(), "unknown identifier") && c.mentionsForeignGhost(e.Src) {
 				// the clause talks about a ghost variable that the function under verification does not declare:
 				// it is irrelevant here (assuming less is sound)
+				c.noteOnce(fmt.Sprintf("ensures of %s not assumed (%v): %s", name, err, e.Src))
 				continue
 			}
 			panic(evalErr(fmt.Sprintf("%s:%d: ensures of %s: %v", e.File, e.Line, name, err)))
@@ -435,7 +436,7 @@ func (s *State) contractCall(call *ssa.Call, sp *FuncSpec, fn *ssa.Function, sig
 		s.assert(t)
 	}
 	// a contradictory callee contract would make everything after the call vacuous
-	c.Obls = append(c.Obls, &Obligation{Name: fmt.Sprintf("%s/vac-call@%s#%d", c.Key, short, occ), Kind: "vac", Func: c.Key, Desc: "assumptions still satisfiable after assuming the contract of " + short, Pos: c.posOf(call.Pos()), Path: s.Path, Before: pathBefore, Goal: "false", ExpectSat: true, PathID: s.PathID})
+	c.addObl(s, &Obligation{Name: fmt.Sprintf("%s/vac-call@%s#%d", c.Key, short, occ), Kind: "vac", Func: c.Key, Desc: "assumptions still satisfiable after assuming the contract of " + short, Pos: c.posOf(call.Pos()), Path: s.Path, Before: pathBefore, Goal: "false", ExpectSat: true, PathID: s.PathID})
 	if sp.Trusted {
 		c.assume("trusted contract: " + sp.Pkg + "::" + sp.Name + strings.Join(sp.Notes, "; "))
 	} else if strings.HasSuffix(sp.File, ".spec") {
